@@ -329,7 +329,7 @@ QUICK_RUNS = {
     ("kv_sim", ""): 40, ("codec_sim", "C12"): 130000, ("codec_sim", "C13"): 200000,
 }
 
-HOOK_COMMITS = ["06b6edb", "0ffc033", "d5f7b95", "752f4f3", "281bdb8", "9279b96"]
+HOOK_COMMITS = ["06b6edb", "0ffc033", "d5f7b95", "752f4f3", "281bdb8", "9279b96", "26389b7"]
 
 NOT_BUILT = "check not built yet (work in progress in this session; see DESIGN.md section 8 for the order of construction)"
 NOT_APPLICABLE = {
@@ -345,7 +345,9 @@ MANIFEST_TEXT = {
     "C12": dict(
         text=("The stream surface is simulated (chunked and interrupted Read / Write, back-to-back values through one "
               "encoder / decoder); the value quantifier is covered by seeded generation over a typed universe - stated "
-              "as such: only the stream dimension is simulation proper."),
+              "as such: only the stream dimension is simulation proper. The universe has 140 types: every type constructor "
+              "the serializer supports except SmallVec / BitVec (feature-gated), derived structs and enums with skipped "
+              "fields in every position, a 140-variant enum."),
         design_ref="DESIGN.md section 4 C12",
         note="trusted: V::same comparisons (bit-exact floats), the sentinel check",
         technique="deterministic stream simulation (short / interrupted reads and writes) over seeded typed values",
@@ -353,7 +355,8 @@ MANIFEST_TEXT = {
     "C13": dict(
         text=("History and process are the simulated dimensions (construction histories of unordered collections "
               "under a seeded BuildHasher, a second process); discrimination is checked on near-miss pairs with a "
-              "recording hasher."),
+              "recording hasher; for every sequence-like type the near miss moves the boundary between two adjacent "
+              "sequences. 97 types, hash-only ones (BinaryHeap, OsString, CString) included."),
         design_ref="DESIGN.md section 4 C13",
         note="trusted: the recording hasher's canonical stream; near-miss generators",
         technique="deterministic simulation of construction histories and a second process; recorded-stream oracle",
@@ -384,14 +387,14 @@ MANIFEST_TEXT = {
         text=("Seeded exploration of intern/lookup/drop/vacuum/codec interleavings with a canonicity invariant "
               "evaluated whenever a handle is obtained."),
         design_ref="DESIGN.md section 4 C15",
-        note="trusted: harness registry of live handles; block-level atomicity between scheduling points",
+        note="trusted: harness registry of live handles; scheduling points are the hand-placed intern_* point and every lock acquisition of Sharded (verif::RwLock)",
         technique="deterministic simulation: token-scheduled real threads, invariant oracle",
     ),
     "C16": dict(
         text=("Seeded exploration of long access histories and thread interleavings against a reference map with pin "
               "set and a resident-count bound."),
         design_ref="DESIGN.md section 4 C16",
-        note="trusted: reference model; slack 36 justified from the maintenance batch size (33 buffered writes), window rounding (+2) and +1",
+        note="trusted: reference model; slack 36 at any moment justified from the maintenance batch size (33 buffered writes), window rounding (+2) and +1; after a forced maintenance pass (Settle) the bound is capacity + pinned + 2, and at the end (nothing pinned, cache filled with fresh keys) capacity + 1",
         technique="deterministic simulation: seeded histories, token-scheduled threads, reference-model oracle",
     ),
     "C06": dict(
